@@ -782,7 +782,11 @@ def run(ctx):
 
 def vs_walk(arg):
     path, n = arg
-    sts = list(tlaval.iter_dump(path))
+    with open(path) as f:
+        text = "\n".join(ln for ln in f.read().splitlines() if not ln.startswith("\\*") and not ln.startswith("====") and not ln.startswith("----"))  # TLC writes "\* <Action ...>" lines between states
+    hdrs = list(_STATE_HDR.finditer(text))
+    sts = [tlaval.parse_state_block(text[h.end() : (hdrs[j + 1].start() if j + 1 < len(hdrs) else len(text))]) for j, h in enumerate(hdrs)]
+    sts = [st for st in sts if st]
     out = []
     if not sts:
         return out
